@@ -265,11 +265,13 @@ fn faults_to_hook_cfg(plan: &Plan) -> rsdd::verif::Config {
 /// Execute one plan start-to-finish on this thread inside its own arena.
 /// A pure function of the plan (and the code under test).
 pub fn execute_plan(world: &dyn World, plan: &Plan, trace: bool) -> Outcome {
-    let slot = (plan.seed % alloc::NUM_SLOTS as u64) as usize;
+    let big = plan.get_or("arena", 1) == 2;
+    let slot = (plan.seed % if big { alloc::NUM_BIG_SLOTS } else { alloc::NUM_SLOTS } as u64) as usize;
     let use_arena = plan.get_or("arena", 1) != 0 && !cfg!(miri);
     if use_arena {
-        alloc::arm(
+        alloc::arm_sized(
             slot,
+            big,
             plan.get_or("place_off", 0) as usize,
             plan.get_or("place_pad_every", 0) as u32,
             plan.get_or("place_pad_bytes", 0) as u32,
@@ -354,7 +356,7 @@ pub fn execute_plan(world: &dyn World, plan: &Plan, trace: bool) -> Outcome {
     let mut out = alloc::with_system(|| out_arena.clone());
     std::mem::forget(out_arena);
     if use_arena {
-        let st = alloc::disarm(slot);
+        let st = alloc::disarm_sized(slot, big);
         out.stats.arena_bytes = st.bytes;
         out.stats.allocs = st.allocs;
     }
